@@ -434,8 +434,15 @@ class Gen:
             p = self.last()
             cap = self.new_input(T, party=p)
 
+            withlit = T in ("SecretInteger", "PublicInteger") and rng.random() < 0.6
+
             def body(ps, cap=cap):
                 self.do({"op": "bin", "bop": op(), "a": ps[0], "b": cap})
+                if withlit:
+                    # a literal that only the function body mentions
+                    r0 = self.last()
+                    self.do({"op": "lit", "base": "int", "v": str(rng.choice([5, 41, 2**65]))})
+                    self.do({"op": "bin", "bop": "add", "a": r0, "b": self.last()})
                 return self.last()
             f = fn1(body)
             if f is None:
@@ -443,6 +450,12 @@ class Gen:
             a = self.new_input(T)
             self.do({"op": "arrayOf", "r": a, "size": rng.choice([2, 3])})
             self.do({"op": "map", "a": self.last(), "f": f})
+            mapped = self.last()
+            if self.m.regs[mapped] is not DEAD and rng.random() < 0.6:
+                # the same function object is reached by two compilations of the process: what its body needs (the captured
+                # input, its party, the literal) has to be in the tables of each
+                self.m.compile([[mapped, "out0", self.parties[0]]])
+                self.m.compile([[mapped, "again", self.parties[0]], [a, "plain", self.parties[0]]])
             return None
         if k in ("zipmap", "nestedzip", "matrix"):
             U = rng.choice([t for t in PUBSEC if t != T])
@@ -592,6 +605,29 @@ class Gen:
             self.do({"op": "arrayNew", "xs": [o2, self.last()]})
             if self.m.regs[self.last()] is not DEAD:
                 made.append(self.last())
+            # rows that are results of `map` (their element type is held as a class): two functions with different return types
+            # over one array, and two with the same
+            srcT = rng.choice(["SecretInteger", "PublicInteger"])
+            otherT = "PublicInteger" if srcT == "SecretInteger" else "SecretInteger"
+            base = self.new_input(srcT)
+            self.do({"op": "arrayOf", "r": base, "size": 3})
+            rows_of = self.last()
+            fns = []
+            for ret in (srcT, otherT, srcT):
+                self.define_fn(anns=[srcT], ret=ret)
+                fns.append(self.last() if describe(self.m.regs[self.last()])[0] == "fn" else None)
+            mapped = []
+            for f in fns:
+                if f is not None:
+                    self.do({"op": "map", "a": rows_of, "f": f})
+                    mapped.append(self.last() if self.m.regs[self.last()] is not DEAD else None)
+                else:
+                    mapped.append(None)
+            for pair in ((0, 1), (1, 0), (0, 2)):
+                if mapped[pair[0]] is not None and mapped[pair[1]] is not None:
+                    self.do({"op": "arrayNew", "xs": [mapped[pair[0]], mapped[pair[1]]]})
+                    if self.m.regs[self.last()] is not DEAD:
+                        made.append(self.last())
             self.compile_now(prefer=(made[::-1] + [good])[:4])
             return None
         if k == "samelit":
@@ -621,6 +657,20 @@ class Gen:
             self.do({"op": "lit", "base": "int", "v": "77"})
             self.do({"op": "bin", "bop": "add", "a": x, "b": self.last()})
             first = self.last()
+            # ... after a function was discovered (the same function is used again by the compilations that follow)
+            fshared = None
+            if rng.random() < 0.7:
+                self.define_fn(anns=["SecretInteger"], ret="SecretInteger",
+                               plan=lambda ps: (self.do({"op": "bin", "bop": "mul", "a": ps[0], "b": ps[0]}), self.last())[1])
+                if describe(self.m.regs[self.last()])[0] == "fn":
+                    fshared = self.last()
+                    if rng.random() < 0.5:
+                        self.do({"op": "call", "f": fshared, "args": [first]})
+                    else:
+                        self.do({"op": "arrayOf", "r": x, "size": 2})
+                        self.do({"op": "map", "a": self.last(), "f": fshared})
+                    if self.m.regs[self.last()] is not DEAD:
+                        first = self.last()
             self.do({"op": "party", "name": "Mallory"})
             pm = self.last()
             self.do({"op": "inputObj", "name": "dupname", "doc": "", "party": pm})
@@ -633,6 +683,13 @@ class Gen:
             # the output names are the ones later compilations use too (whatever the compiler keeps per output name —
             # timers, caches — must not survive the failure)
             self.m.compile([[first, "out0", self.parties[0]], [bad, "out1", pm]])
+            if fshared is not None:
+                # the retry: the valid output alone, then the function at another site
+                self.m.compile([[first, "out0", self.parties[0]]])
+                z = self.new_input("SecretInteger")
+                self.do({"op": "call", "f": fshared, "args": [z]})
+                if self.m.regs[self.last()] is not DEAD:
+                    self.m.compile([[self.last(), "out0", self.parties[0]], [first, "out1", self.parties[0]]])
             y = self.new_input(T)
             self.do({"op": "bin", "bop": "eq", "a": y, "b": y})
             self.m.compile([[self.last(), "out1", self.parties[0]], [y, "out0", self.parties[0]]])
